@@ -6,7 +6,7 @@ import sys, os, json, glob, subprocess, concurrent.futures, re
 ROOT = os.path.join(os.path.dirname(os.path.abspath(__file__)), "..")
 def one(d):
     meta = json.load(open(os.path.join(d, "meta.json")))
-    pid = meta["property"]
+    pid = meta.get("decided_by", meta["property"])
     r = subprocess.run([sys.executable, os.path.join(ROOT, "tools", "eval_seeded.py"), os.path.join(d, "patch.diff"), pid],
                        stdout=subprocess.PIPE, stderr=subprocess.STDOUT, text=True)
     m = re.search(r"%s quick: (obligations \S+).*?disagreements (\d+), violations (\d+)" % pid, r.stdout)
